@@ -78,6 +78,34 @@ def check_layout(led):
             report(led, '%s[N=%d]/ranges-consecutive-and-disjoint' % (func, N), func, probs)
             report(led, '%sget_size[N=%d]/size==sum-of-component-sizes' % (AF, N), AF + 'get_size',
                    [] if peq(size, tot) else ['size = %s, expected %s' % (pycheck.describe(size), pycheck.describe(tot))])
+    # panels that already belonged to an assembly: a second assembly lays them out by ITS list (positions are not inherited)
+    it, calls = py_panel.mk()
+
+    def run2():
+        asm, panels, meta, conn = make_assembly(it, ['plate', 'cpanel', 'plate'])
+        amod = it.module('compmech.panel.assembly.assembly')
+        order = [2, 0]
+        asm2 = it.call(amod.g['PanelAssembly'], [[panels[k] for k in order]], {})
+        size = it.call(it.getattr(asm2, 'get_size'), [], {})
+        return panels, meta, order, size
+    for path, out in it.explore(run2):
+        func = AF + '__init__'
+        name = '%s[panels taken from an earlier assembly]/ranges-follow-the-new-list' % func
+        if out[0] != 'return':
+            report(led, name + '/no-exception', func, ['raises %s' % out[1].tname])
+            continue
+        panels, meta, order, size = out[1]
+        probs = []
+        tot = P.const(0)
+        for k in order:
+            n_ = 3 * meta[k][0]['m'] * meta[k][0]['n']
+            for attr, want in (('row_start', tot), ('col_start', tot), ('row_end', tot + n_), ('col_end', tot + n_)):
+                if not peq(panels[k].attrs.get(attr), want):
+                    probs.append('panel %d: %s = %s, expected %s' % (k + 1, attr, pycheck.describe(panels[k].attrs.get(attr)), pycheck.describe(want)))
+            tot = tot + n_
+        if not peq(size, tot):
+            probs.append('size = %s, expected %s' % (pycheck.describe(size), pycheck.describe(tot)))
+        report(led, name, func, probs, signature='relayout')
     led.function(AF + '__init__')
     led.function(AF + 'get_size')
     led.bounded_item('PanelAssembly: number of panels N in {1,2,3} (series orders, geometry, laminates, flags symbolic)')
@@ -215,6 +243,38 @@ def check_matrix(led, method, kernel_names, extra_kwargs=None, with_conn=False, 
             led.solver_time('z3-feasibility', it.solver_time)
 
 
+def check_add_force(led):
+    """Panel.add_force registers exactly the force it is given, every time (point forces superpose: the same force added twice is a
+    load of twice the magnitude), in the list that matches ``cte`` and nowhere else"""
+    func = 'compmech/panel/_panel.py:Panel.add_force'
+    led.function(func)
+    it, calls = py_panel.mk()
+    for cte in (True, False):
+        def run():
+            p, kw, want, g = build(it, 'plate', 'uniform', 'none', {})
+            f = [real(s_) for s_ in ('xf', 'yf', 'fxf', 'fyf', 'fzf')]
+            other = [real(s_ + '_other') for s_ in ('xf', 'yf', 'fxf', 'fyf', 'fzf')]
+            it.call(it.getattr(p, 'add_force'), list(f), {'cte': cte})
+            it.call(it.getattr(p, 'add_force'), list(other), {'cte': cte})
+            it.call(it.getattr(p, 'add_force'), list(f), {'cte': cte})
+            return p, f, other
+        for path, out in it.explore(run):
+            name = '%s[cte=%s]/every-call-appends-its-force' % (func, cte)
+            if out[0] != 'return':
+                report(led, name + '/no-exception', func, ['raises %s' % out[1].tname], signature='raise')
+                continue
+            p, f, other = out[1]
+            mine, theirs = ('forces', 'forces_inc') if cte else ('forces_inc', 'forces')
+            got = [list(x) for x in p.attrs.get(mine, [])]
+            probs = []
+            if len(got) != 3 or not all(peq(a_, b_) for a_, b_ in zip(sum(got, []), f + other + f)):
+                probs.append('%s holds %d entries after three calls (the same force twice, another one in between): %s' % (mine, len(got), [[pycheck.describe(x) for x in e] for e in got]))
+            if p.attrs.get(theirs):
+                probs.append('%s was changed' % theirs)
+            report(led, name, func, probs, signature='add_force')
+    led.solver_time('z3-feasibility', it.solver_time)
+
+
 def check_fext(led):
     """PanelAssembly.calc_fext / Panel.calc_fext: each force contributes F . g(x_f, y_f) of its own panel at that panel's range,
     incrementable forces scaled by the load factor (C07)"""
@@ -223,6 +283,7 @@ def check_fext(led):
     led.function(func)
     led.function(pfunc)
     led.function('compmech/panel/_panel.py:Panel.add_force')
+    check_add_force(led)
     for N in (1, 2):
         for nf, nfi in ((0, 0), (1, 0), (0, 1), (2, 1)):
             it, calls = py_panel.mk()
